@@ -242,4 +242,37 @@ Example C19_ex_stream_step_from_source :
   ex_obs r1 = Some (true, (8, 7, 7, 1)) /\ ex_obs (ex_next r1) = Some (true, (20, 27, 20, 1)) /\
   ex_obs (ex_next (ex_next r1)) = Some (false, (32, 27, 20, 0)).
 Proof. vm_compute. auto. Qed.
+
+(* Loading, from the source: the generated load_obs (check_stream_header inside) leaves a loadable stream with exactly
+   the cursor StreamDefs.load_obs gives (offset 8, no event loaded, active iff something follows the header), of which
+   C19_inv_loaded_partial then gives the invariant of the walk.  Partial: open / close / load_stream_fd (fstat + mmap;
+   struct stat by value, MAP_FAILED) are primitives of StepperPre.v, stream_load's path and JSON handling and
+   stream_progress are not translated, usize is not represented. *)
+Theorem C19_stream_load_from_source_partial : forall sx st id path,
+  (id < length (StepperPre.streams st))%nat ->
+  let g := nth id (StepperPre.streams st) StepperPre.g0 in
+  blen (StepperPre.g_buf g) < 2 ^ 63 ->
+  match load_obs (StepperPre.g_buf g) (StepperPre.g_junk g) (negb (StepperPre.g_unsorted g =? 0)) with
+  | LoadErr _ => Stepper_gen.load_obs (Some id) path sx st = StepperPre.Fail StepperPre.E_FAIL
+  | Loaded s =>
+      exists g', Stepper_gen.load_obs (Some id) path sx st = StepperPre.Done tt (StepperPre.put st id g') /\
+        (StepperPre.g_cur g = None -> StepperPre.g_lastclock g = 0 -> StepperProofs.abs g' = s) /\
+        (StepperPre.g_cur g = None -> StepperPre.g_clkoff g = 0 -> StepperProofs.gwf id g') /\
+        StepperPre.g_buf g' = StepperPre.g_buf g /\ StepperPre.g_junk g' = StepperPre.g_junk g
+  end.
+Proof. exact StepperProofs.load_obs_from_source. Qed.
+Print Assumptions C19_stream_load_from_source_partial.
+
+(* a 20-byte file: header + one 12-byte event is loaded active at offset 8; a file with a wrong version is refused *)
+Example C19_ex_stream_load_from_source :
+  let mk bs := StepperPre.mk_pstate [StepperPre.mk_gstream bs zero_junk None 0 0 0 0 0 0 0] (StepperPre.mk_gplayer [] 0 0 0 0 1 0 None None) in
+  let obs r := match r with
+               | StepperPre.Done _ s => let g := nth 0 (StepperPre.streams s) StepperPre.g0 in
+                                        Some (StepperPre.g_size g, StepperPre.g_offset g, StepperPre.g_active g)
+               | _ => None end in
+  obs (Stepper_gen.load_obs (Some 0%nat) None tt (mk (hdr ++ [0; 79; 72; 120; 10; 0; 0; 0; 0; 0; 0; 0]))) = Some (20, 8, 1) /\
+  obs (Stepper_gen.load_obs (Some 0%nat) None tt (mk hdr)) = Some (8, 8, 0) /\
+  obs (Stepper_gen.load_obs (Some 0%nat) None tt (mk [111; 118; 110; 105; 2; 0; 0; 0; 0])) = None /\
+  obs (Stepper_gen.load_obs (Some 0%nat) None tt (mk [])) = None.
+Proof. vm_compute. auto. Qed.
 (* ==== end of block (unit stepper) ==== *)
